@@ -16,6 +16,7 @@ import BtcVerif.Proofs.StreamUnordered
 import BtcVerif.Proofs.StreamVariant
 import BtcVerif.Proofs.StreamComplete
 import BtcVerif.Proofs.Reorder
+import BtcVerif.Model.Rpc
 
 namespace BtcVerif.Props.C16
 open BtcVerif.Model.Stream
@@ -248,6 +249,47 @@ theorem reorderer_without_counting_accepts_a_short_scan :
     (runNoCount 100 10 evs).res = .done ∧ (runNoCount 100 10 evs).out.length = 2 ∧
     (run 100 103 10 evs).res = .err := by
   decide
+
+
+/-! ### what counts as an RPC failure: the reply classification of `rpc.Connection` (`Model/Rpc.lean`)
+
+"An RPC failure surfaces as an error" starts at the connection: the transition system above takes "the RPC
+returned an error" as an environment event; these theorems say which replies are that event.  The conditions
+are the regenerated guards of `RequestSetResult`. -/
+
+open BtcVerif.Model.Rpc in
+/-- a call returns nil only for a reply that is not a 401, parses, is not `null`, carries no error object and
+carries a result: every other reply is an error (or the documented retry of an overloaded node) -/
+theorem rpc_success_needs_a_result (r : Reply) (h : classify r = .ok) :
+    r.status ≠ 401 ∧ r.body ≠ "Work queue depth exceeded" ∧ r.parseFails = false ∧ r.objNil = false ∧
+    r.errorNil = true ∧ r.resultNil = false := by
+  unfold classify at h
+  simp only [BtcVerif.Gen.Guards.rpc_Connection_RequestSetResult_0, BtcVerif.Gen.Guards.rpc_Connection_RequestSetResult_1,
+    BtcVerif.Gen.Guards.rpc_Connection_RequestSetResult_2, BtcVerif.Gen.Guards.rpc_Connection_RequestSetResult_3,
+    BtcVerif.Gen.Guards.rpc_Connection_RequestSetResult_4, BtcVerif.Gen.Guards.rpc_Connection_RequestSetResult_5] at h
+  by_cases h0 : r.status = 401
+  · simp [h0] at h
+  · by_cases h1 : r.body = "Work queue depth exceeded"
+    · simp [h0, h1] at h
+    · cases hp : r.parseFails <;> cases hn : r.objNil <;> cases he : r.errorNil <;> cases hr : r.resultNil <;>
+        simp [h0, h1, hp, hn, he, hr] at h ⊢
+
+open BtcVerif.Model.Rpc in
+/-- the node's error object is what the caller gets, whatever the status code and whatever else the reply holds -/
+theorem rpc_error_object_surfaces (r : Reply) (h0 : r.status ≠ 401) (h1 : r.body ≠ "Work queue depth exceeded")
+    (hp : r.parseFails = false) (hn : r.objNil = false) (he : r.errorNil = false) : classify r = .rpcFailure := by
+  unfold classify
+  simp [BtcVerif.Gen.Guards.rpc_Connection_RequestSetResult_0, BtcVerif.Gen.Guards.rpc_Connection_RequestSetResult_1,
+    BtcVerif.Gen.Guards.rpc_Connection_RequestSetResult_3, BtcVerif.Gen.Guards.rpc_Connection_RequestSetResult_4,
+    h0, h1, hp, hn, he]
+
+open BtcVerif.Model.Rpc in
+/-- non-vacuity: an ordinary reply is a success, `null` and a null result are not -/
+example : classify ⟨200, "{\"result\":5,\"error\":null,\"id\":1}", false, false, true, false⟩ = .ok ∧
+    classify ⟨200, "null", false, true, true, true⟩ = .invalidFormat ∧
+    classify ⟨200, "{\"result\":null,\"error\":null}", false, false, true, true⟩ = .invalidFormat ∧
+    classify ⟨500, "{\"result\":null,\"error\":{\"code\":-8}}", false, false, false, true⟩ = .rpcFailure ∧
+    classify ⟨401, "", true, true, true, true⟩ = .invalidCredentials := by decide
 
 /-! ### non-vacuity: the hypotheses are satisfiable, the model runs, the validator discriminates -/
 
